@@ -5,7 +5,7 @@
 //! A zero-sized registered value is never passed *as an argument* (that is
 //! C05's known defect, not C15's business): for `Tk0` the element is made
 //! inside the script by a registered `mk0()`.
-use super::{Elem, Op, Tk0, Tk24, nats, show_opt};
+use super::{Body, Elem, Op, Tk0, Tk24, nats, show_opt};
 use roto::{FileTree, List, NoCtx, RotoString, Runtime, TypedFunc, Val, library};
 
 pub const AVAILABLE: bool = true;
@@ -51,6 +51,20 @@ where
     ident: F<fn(List<T>) -> List<T>>,
     drop: F<fn(List<T>)>,
     join: Option<F<fn(List<T>, RotoString) -> RotoString>>,
+    for_rebind: F<fn(List<T>, List<T>, u64) -> List<T>>,
+    for_concat: F<fn(List<T>, List<T>, u64) -> List<T>>,
+    for_new: F<fn(List<T>, u64) -> List<T>>,
+    for_field: F<fn(List<T>, List<T>, u64) -> List<T>>,
+    for_push: ForPush<T>,
+    for_swap: F<fn(List<T>, List<T>, u64, u64, u64) -> List<T>>,
+}
+
+enum ForPush<T: Elem>
+where
+    T::Transformed: PartialEq,
+{
+    Arg(F<fn(List<T>, List<T>, u64, T) -> List<T>>),
+    Made(F<fn(List<T>, List<T>, u64) -> List<T>>),
 }
 
 fn source(t: &str, made: bool, string: bool) -> String {
@@ -88,6 +102,22 @@ fn source(t: &str, made: bool, string: bool) -> String {
     if string {
         s.push_str("fn s_join(l: List[String], sep: String) -> String { l.join(sep) }\n");
     }
+    // loops with a body: during iteration `k` the variable the loop is written over
+    // gets another handle, or a list is changed through the second variable
+    let lp = |body: &str| format!("let out = List.new(); let i = 0; for x in l {{ out.push(x); if i == k {{ {body} }} i = i + 1; }} out");
+    s.push_str(&format!("fn s_for_rebind(l: {l}, o: {l}, k: u64) -> {l} {{ {} }}\n", lp("l = o;")));
+    s.push_str(&format!("fn s_for_concat(l: {l}, o: {l}, k: u64) -> {l} {{ {} }}\n", lp("l = l + o;")));
+    s.push_str(&format!("fn s_for_new(l: {l}, k: u64) -> {l} {{ {} }}\n", lp("l = [];")));
+    s.push_str(&format!("record Holder {{ items: {l} }}\n"));
+    s.push_str(&format!(
+        "fn s_for_field(l: {l}, o: {l}, k: u64) -> {l} {{ let r = Holder {{ items: l }}; let out = List.new(); let i = 0; for x in r.items {{ out.push(x); if i == k {{ r.items = o; }} i = i + 1; }} out }}\n"
+    ));
+    if made {
+        s.push_str(&format!("fn s_for_push(l: {l}, o: {l}, k: u64) -> {l} {{ {} }}\n", lp("o.push(mk0());")));
+    } else {
+        s.push_str(&format!("fn s_for_push(l: {l}, o: {l}, k: u64, v: {t}) -> {l} {{ {} }}\n", lp("o.push(v);")));
+    }
+    s.push_str(&format!("fn s_for_swap(l: {l}, o: {l}, k: u64, a: u64, b: u64) -> {l} {{ {} }}\n", lp("o.swap(a, b);")));
     s
 }
 
@@ -133,6 +163,12 @@ where
         ident: f!("s_ident"),
         drop: f!("s_drop"),
         join: if string { Some(f!("s_join")) } else { None },
+        for_rebind: f!("s_for_rebind"),
+        for_concat: f!("s_for_concat"),
+        for_new: f!("s_for_new"),
+        for_field: f!("s_for_field"),
+        for_push: if made { ForPush::Made(f!("s_for_push")) } else { ForPush::Arg(f!("s_for_push")) },
+        for_swap: f!("s_for_swap"),
     }
 }
 
@@ -232,6 +268,22 @@ where
             let s: &str = s.as_ref();
             super::show_str(s)
         }
+        Op::ForDo(i, k, body) => {
+            let l = h(slots, *i);
+            let out = match body {
+                Body::Rebind(g) => f.for_rebind.call(l, h(slots, *g), *k),
+                Body::RebindConcat(g) => f.for_concat.call(l, h(slots, *g), *k),
+                Body::RebindNew => f.for_new.call(l, *k),
+                Body::RebindField(g) => f.for_field.call(l, h(slots, *g), *k),
+                Body::Push(g, v) => match &f.for_push {
+                    ForPush::Arg(p) => p.call(l, h(slots, *g), *k, T::make(*v)),
+                    ForPush::Made(p) => p.call(l, h(slots, *g), *k),
+                },
+                Body::Swap(g, a, b) => f.for_swap.call(l, h(slots, *g), *k, *a, *b),
+            };
+            let v: Vec<u64> = out.to_vec().iter().map(|x| x.val()).collect();
+            format!("v{}", nats(&v))
+        }
     }
 }
 
@@ -290,6 +342,18 @@ fn eqn(a: List[List[u64]], b: List[List[u64]]) -> bool { a == b }
 fn has(a: List[List[u64]], b: List[u64]) -> bool { a.contains(b) }
 fn lit() -> List[List[u64]] { let x = [1, 2]; let o = [x, x, [3]]; x.push(7); o }
 fn total(o: List[List[u64]]) -> u64 { let n = 0; for l in o { for v in l { n = n + v; } } n }
+fn mkf(x: f64, y: f64) -> List[List[f64]] { [[x], [y, x]] }
+fn eqf(a: List[List[f64]], b: List[List[f64]]) -> bool { a == b }
+fn hasf(a: List[List[f64]], x: f64) -> bool { a.contains([x]) }
+fn idxf(a: List[List[f64]], y: f64, x: f64) -> u64? { a.index([y, x]) }
+fn stale(v: u64) -> List[u64?] { let x = Some(v); x = None; [x] }
+fn fresh() -> List[u64?] { let n: u64? = None; [n] }
+fn opt_eq(v: u64) -> bool { stale(v) == fresh() }
+fn opt_eq_rev(v: u64) -> bool { fresh() == stale(v) }
+fn opt_ne(v: u64) -> bool { stale(v) != fresh() }
+fn opt_has(v: u64) -> bool { let n: u64? = None; stale(v).contains(n) }
+fn opt_idx(v: u64) -> u64? { let n: u64? = None; stale(v).index(n) }
+fn opt_some(v: u64) -> bool { let a = [Some(v), None]; let b = [Some(v), None]; a == b && a.contains(Some(v)) }
 ";
     let mut pkg = match FileTree::test_file("nested.roto", src, 0).compile(&rt) {
         Ok(p) => p,
@@ -315,5 +379,55 @@ fn total(o: List[List[u64]]) -> u64 { let n = 0; for l in o { for v in l { n = n
     out.push(("script-literal-shares", vv(&l) == vec![vec![1, 2, 7], vec![1, 2, 7], vec![3]], format!("{:?}", vv(&l))));
     let total: F<fn(List<List<u64>>) -> u64> = pkg.get_function("total").unwrap();
     out.push(("script-nested-for", total.call(l.clone()) == 23, format!("{}", total.call(l.clone()))));
+    // inner lists of floats built by the script (no clone function in their vtable): the
+    // outer `==` / `contains` / `index` compare them through `ErasedList::eq`, which must use
+    // the element `==` (0.0 == -0.0, NaN != NaN) exactly as `Vec<Vec<f64>>` does
+    let mkf: F<fn(f64, f64) -> List<List<f64>>> = pkg.get_function("mkf").unwrap();
+    let eqf: F<fn(List<List<f64>>, List<List<f64>>) -> bool> = pkg.get_function("eqf").unwrap();
+    let hasf: F<fn(List<List<f64>>, f64) -> bool> = pkg.get_function("hasf").unwrap();
+    let idxf: F<fn(List<List<f64>>, f64, f64) -> Option<u64>> = pkg.get_function("idxf").unwrap();
+    let vf = |x: f64, y: f64| -> Vec<Vec<f64>> { vec![vec![x], vec![y, x]] };
+    for (name, (x1, y1), (x2, y2)) in [
+        ("script-nested-f64-eq-zeros", (0.0f64, 1.5f64), (-0.0f64, 1.5f64)),
+        ("script-nested-f64-eq-nan", (f64::NAN, 1.5), (f64::NAN, 1.5)),
+        ("script-nested-f64-eq-differ", (1.0, 1.5), (1.0, 2.5)),
+    ] {
+        let got = eqf.call(mkf.call(x1, y1), mkf.call(x2, y2));
+        let want = vf(x1, y1) == vf(x2, y2);
+        out.push((name, got == want, format!("{got} vs Vec<Vec<f64>> {want}")));
+    }
+    for (name, (x, y), item) in [
+        ("script-nested-f64-contains-zero", (0.0f64, 1.5f64), -0.0f64),
+        ("script-nested-f64-contains-nan", (f64::NAN, 1.5), f64::NAN),
+        ("script-nested-f64-contains-miss", (1.0, 1.5), 2.0),
+    ] {
+        let got = hasf.call(mkf.call(x, y), item);
+        let want = vf(x, y).contains(&vec![item]);
+        out.push((name, got == want, format!("{got} vs Vec<Vec<f64>> {want}")));
+    }
+    // a Copy element whose representation has bytes that are not part of its value: an
+    // `u64?` that was `Some(v)` and is `None` now keeps `v` in its payload bytes; it is
+    // equal to a fresh `None` (as `Vec<Option<u64>>` says), its bytes are not
+    {
+        let want = vec![None::<u64>] == vec![None::<u64>];
+        for name in ["opt_eq", "opt_eq_rev"] {
+            let f: F<fn(u64) -> bool> = pkg.get_function(name).unwrap();
+            let got = f.call(5) && f.call(0xFFFF_FFFF_FFFF);
+            out.push((if name == "opt_eq" { "script-option-stale-payload-eq" } else { "script-option-stale-payload-eq-rev" }, got == want, format!("{got} vs Vec<Option<u64>> {want}")));
+        }
+        let f: F<fn(u64) -> bool> = pkg.get_function("opt_ne").unwrap();
+        out.push(("script-option-stale-payload-ne", !f.call(5), "!= of equal lists".into()));
+        let f: F<fn(u64) -> bool> = pkg.get_function("opt_has").unwrap();
+        out.push(("script-option-stale-payload-contains", f.call(7) == vec![None::<u64>].contains(&None), "contains(None)".into()));
+        let f: F<fn(u64) -> Option<u64>> = pkg.get_function("opt_idx").unwrap();
+        out.push(("script-option-stale-payload-index", f.call(7) == Some(0), format!("{:?}", f.call(7))));
+        let f: F<fn(u64) -> bool> = pkg.get_function("opt_some").unwrap();
+        out.push(("script-option-some-none", f.call(3), "[Some(v), None] == [Some(v), None]".into()));
+    }
+    {
+        let got = idxf.call(mkf.call(-0.0, 1.5), 1.5, 0.0);
+        let want = vf(-0.0, 1.5).iter().position(|v| *v == vec![1.5, 0.0]).map(|i| i as u64);
+        out.push(("script-nested-f64-index-zero", got == want, format!("{got:?} vs Vec<Vec<f64>> {want:?}")));
+    }
     out
 }
